@@ -400,7 +400,8 @@ fn witness(p: &Pair, mon: &Mon, actions: &[String], params: &Value) -> Value {
 fn complete_and_check(p: &mut Pair, mon: &mut Mon, actions: &mut Vec<String>, d: &mut Delta, params: &Value) -> bool {
     let both_closed = p.sides[A].close_called && p.sides[B].close_called;
     // 40 rounds + 2 MSL = 2000 ms = 20 rounds of 101 ms, +5 slack
-    let bound = 65;
+    let outstanding = p.sides[A].submitted.len() + p.sides[B].submitted.len();
+    let bound = 65 + 8 * (outstanding as u64 / 60_000);
     let mut rounds = 0;
     let mut time_wait_entered_at: [Option<u64>; 2] = [None, None];
     let mut released_at: [Option<u64>; 2] = [None, None];
@@ -540,7 +541,7 @@ fn random_schedule(env: &Env, k: u64, case: u64, rng: &mut impl Rng, d: &mut Del
             continue;
         }
         if r < 8 {
-            let n = *rng.pick(&[1usize, 1, 100, 3000]);
+            let n = if mtu >= 1500 && rng.chance(1, 5) { *rng.pick(&[70000usize, 200000]) } else { *rng.pick(&[1usize, 1, 100, 3000]) };
             if p.write(side, n) {
                 actions.push(format!("write{}:{n}", side_name(side)));
             }
@@ -606,14 +607,15 @@ fn random_schedule(env: &Env, k: u64, case: u64, rng: &mut impl Rng, d: &mut Del
             }
         }
         // optionally leave data queued / in flight at the moment of close
+        let big: &[usize] = if mtu >= 1500 { &[1, 3000, 70000, 200000] } else { &[1, 3000] };
         match rng.gen_range(0..4) {
             0 => {
-                if p.write(*s, *rng.pick(&[1usize, 3000])) {
+                if p.write(*s, *rng.pick(big)) {
                     actions.push(format!("write{}-just-before-close", side_name(*s)));
                 }
             }
             1 => {
-                if p.write(*s, *rng.pick(&[1usize, 3000])) {
+                if p.write(*s, *rng.pick(big)) {
                     p.pump(*s);
                     actions.push(format!("write+pump{}-just-before-close", side_name(*s)));
                 }
